@@ -8,5 +8,5 @@ CONSTANTS
   Keys <- MCKeys
   Seeds <- MCSeeds
   Obs <- ObsEmit
-INVARIANTS TypeOK JenkinsSame Jenkins32Law MixReversible FnvShiftAdd RangeOK
+INVARIANTS TypeOK JenkinsSame Jenkins32Law MixReversible FnvShiftAdd FoldLaw RangeOK
 CHECK_DEADLOCK FALSE
